@@ -99,6 +99,9 @@ def cmdLalrCheck (fields : List String) : String :=
     let iso := LALR.tablesIso acts gotos b.acts b.gotos
     let R : LR.RawTables := ⟨acts, gotos, prods, nT, start⟩
     "REF=ok states=" ++ toString b.nStates ++ " iso=" ++ (if iso then "1" else "0") ++ " wf=" ++ (if R.WF then "1" else "0") ++
-      " sim=" ++ (if simulates b.acts b.gotos acts gotos then "1" else "0")
+      " sim=" ++ (if simulates b.acts b.gotos acts gotos then "1" else "0") ++
+      -- is the grammar LALR(1) without its directives? (if not, the directives removed parses, possibly sentences)
+      " noprec=" ++ (if levels.isEmpty then "ok" else
+        match LALR.build { g with levels := [] } 200 with | some _ => "ok" | none => "reject")
 
 end Emerge.Driver
